@@ -596,7 +596,7 @@ func runRows(e *core.Env, prop string) error {
 			}
 			c := core.Case{Op: op, Impl: impl, Nontrivial: l.tag != "matching" || strings.HasPrefix(impl, "ok "),
 				Tags:   []string{"plog", "log=" + l.tag, "impl:" + strings.SplitN(impl, " ", 2)[0], fmt.Sprintf("active-filters=%d", min(nActive, 3))},
-				Detail: map[string]any{"event": ev, "block": cig.Block, "agg": cig.FilterAGG, "topics": tt, "data": core.Hex(l.data)}}
+				Detail: map[string]any{"event": ev, "block": cig.Block, "agg": cig.FilterAGG, "topics": tt, "data": core.Hex(l.data), "ig": fmt.Sprintf("%+v", ig)[:300]}}
 			if prop == "C12" {
 				c.Nontrivial = nActive > 0
 			}
